@@ -4,33 +4,59 @@
 From SV Require Import Base Json MD5 Canon FS Proc Crash WsNames CorrC11 C11Proofs.
 Import ListNotations.
 
-(* every crash state of p started in a state satisfying Inv satisfies Inv *)
-Definition safeK {A} (Inv : fs -> Prop) (p : prog A) : Prop := forall f g, Inv f -> crashed p f g -> Inv g.
+(* crash states AND fault outcomes at once: stop anywhere (the pending write possibly torn), and any call may
+   fail with any errno without taking effect *)
+Inductive gcrashed {A} : prog A -> fs -> fs -> Prop :=
+| gc_here : forall p f, gcrashed p f f
+| gc_torn : forall q d k f n f',
+    (0 < n < length (c_bytes d))%nat -> write_open f q (torn_content d n) = FOk f' ->
+    gcrashed (Do (CWrite q d) k) f f'
+| gc_step : forall c k f f' r g, exec_res f c = (f', r) -> gcrashed (k r) f' g -> gcrashed (Do c k) f g
+| gc_fault : forall c k f e g, gcrashed (k (FErr e)) f g -> gcrashed (Do c k) f g.
+
+Lemma crashed_gcrashed : forall A (p : prog A) f g, crashed p f g -> gcrashed p f g.
+Proof. intros A p f g H. induction H; [apply gc_here|eapply gc_torn; eauto|eapply gc_step; eauto]. Qed.
+
+Lemma run_fault_gcrashed : forall A plan (p : prog A) n f, gcrashed p f (fst (run_fault plan n p f)).
+Proof.
+  intros A plan p. induction p as [a|e|c k IH]; intros n f; simpl; try apply gc_here.
+  destruct (plan n) as [e|].
+  - apply gc_fault with (e := e). apply IH.
+  - destruct (exec_res f c) as [f' r] eqn:E. eapply gc_step; eauto.
+Qed.
+
+(* every crash state / fault outcome of p started in a state satisfying Inv satisfies Inv *)
+Definition safeK {A} (Inv : fs -> Prop) (p : prog A) : Prop := forall f g, Inv f -> gcrashed p f g -> Inv g.
 
 Lemma safe_ret : forall A (Inv : fs -> Prop) (a : A), safeK Inv (Ret a).
-Proof. intros A Inv a f g Hi H. apply crashed_ret_inv in H. subst. exact Hi. Qed.
+Proof. intros A Inv a f g Hi H. inversion H; subst. exact Hi. Qed.
 
 Lemma safe_raise : forall A (Inv : fs -> Prop) e, safeK Inv (@Raise A e).
-Proof. intros A Inv e f g Hi H. apply crashed_raise_inv in H. subst. exact Hi. Qed.
+Proof. intros A Inv e f g Hi H. inversion H; subst. exact Hi. Qed.
 
 Lemma safe_do : forall A (Inv : fs -> Prop) c (k : fres val -> prog A), is_write c = false ->
   (forall f, Inv f -> Inv (fst (exec_res f c)) /\ safeK Inv (k (snd (exec_res f c)))) ->
+  (forall e, safeK Inv (k (FErr e))) ->
   safeK Inv (Do c k).
 Proof.
-  intros A Inv c k Hw H f g Hi Hc. apply crashed_do_inv in Hc; auto. destruct Hc as [->|Hc]; auto.
-  destruct (H f Hi) as [Hi' Hs]. apply (Hs _ g Hi' Hc).
+  intros A Inv c k Hw H Hf f g Hi Hc. inversion Hc as [| |c0 k0 f1 f' r g0 He Hr|c0 k0 f1 e g0 Hr]; subst; auto.
+  - discriminate.
+  - destruct (H f Hi) as [Hi' Hs]. rewrite He in *. apply (Hs _ g Hi' Hr).
+  - apply (Hf e f g Hi Hr).
 Qed.
 
 Lemma safe_write : forall A (Inv : fs -> Prop) q d (k : fres val -> prog A),
   (forall f, Inv f ->
      (forall n f', (0 < n < length (c_bytes d))%nat -> write_open f q (torn_content d n) = FOk f' -> Inv f') /\
      Inv (fst (exec_res f (CWrite q d))) /\ safeK Inv (k (snd (exec_res f (CWrite q d))))) ->
+  (forall e, safeK Inv (k (FErr e))) ->
   safeK Inv (Do (CWrite q d) k).
 Proof.
-  intros A Inv q d k H f g Hi Hc. destruct (H f Hi) as [Ht [Hi' Hs]].
-  apply crashed_write_inv in Hc. destruct Hc as [->|[[n [f' [Hn [Hw ->]]]]|Hc]]; auto.
+  intros A Inv q d k H Hf f g Hi Hc. destruct (H f Hi) as [Ht [Hi' Hs]].
+  inversion Hc as [|q0 d0 k0 f1 n f' Hn Hw|c0 k0 f1 f' r g0 He Hr|c0 k0 f1 e g0 Hr]; subst; auto.
   - eapply Ht; eauto.
-  - apply (Hs _ g Hi' Hc).
+  - rewrite He in *. apply (Hs _ g Hi' Hr).
+  - apply (Hf e f g Hi Hr).
 Qed.
 
 (* a call that does not change the state *)
@@ -51,9 +77,9 @@ Lemma pure_not_write : forall c, pure_call c = true -> is_write c = false.
 Proof. intros c H. destruct c; simpl in *; auto; discriminate. Qed.
 
 Lemma safe_pure : forall A (Inv : fs -> Prop) c (k : fres val -> prog A), pure_call c = true ->
-  (forall f, Inv f -> safeK Inv (k (snd (exec_res f c)))) -> safeK Inv (Do c k).
+  (forall f, Inv f -> safeK Inv (k (snd (exec_res f c)))) -> (forall e, safeK Inv (k (FErr e))) -> safeK Inv (Do c k).
 Proof.
-  intros A Inv c k Hp H. apply safe_do; [apply pure_not_write; auto|].
+  intros A Inv c k Hp H Hf. apply safe_do; [apply pure_not_write; auto| |exact Hf].
   intros f Hi. rewrite (pure_fst f c Hp). split; auto.
 Qed.
 
@@ -73,6 +99,7 @@ Section CLONE.
   Hypothesis Hdiff : ws <> dws.
   Hypothesis Hdws : get f0 dws = Some Dir.
   Hypothesis Hsp : get f0 (src ++ [SPF]) = Some (File c0).
+  Hypothesis Hcl : forall p, get f0 p <> None -> get f0 (parent p) = Some Dir.
 
   (* nothing outside the destination changes; the destination is absent or a directory; its state point file
      is absent, not parseable (empty / torn), or the complete copy of the source's *)
@@ -174,7 +201,7 @@ Section CLONE.
     safeK CI (copy_file (src ++ rel ++ [n]) (dst ++ rel ++ [n]) k).
   Proof.
     intros rel n k Hk. unfold copy_file. destruct (rel_path_facts rel n) as [Hu Hne].
-    apply safe_pure; [reflexivity|]. intros f Hi.
+    apply safe_pure; [reflexivity| |intro e0; apply Hk]. intros f Hi.
     unfold exec_res. cbn [exec].
     destruct (get f (src ++ rel ++ [n])) as [[c|]|] eqn:G; cbn [snd]; try apply Hk.
     (* the content that was read: if this is the state point file, it is the source's *)
@@ -197,10 +224,10 @@ Section CLONE.
     { intro rw. apply safe_pure_all; [reflexivity|]. intro rc. destruct rw, rc; try apply Hk.
       apply safe_pure_all; [reflexivity|]. intros [v1|e1]; [|apply Hk].
       apply safe_pure_all; [reflexivity|]. intros [v2|e2]; apply Hk. }
-    apply safe_do; [reflexivity|]. intros g Hg. split; [apply CI_openw; auto|].
+    apply safe_do; [reflexivity| |intro e0; apply Hk]. intros g Hg. split; [apply CI_openw; auto|].
     destruct (snd (exec_res g (COpenW d))) as [v|e]; [|apply Hk]. cbv beta zeta.
     destruct (c_bytes c) eqn:Eb; [apply (Hafter (FOk RUnit))|].
-    apply safe_write. intros h Hh. split; [|split].
+    apply safe_write; [|intro e0; apply (Hafter (FErr e0))]. intros h Hh. split; [|split].
     - intros m h' Hm Hw. apply (CI_write_open h h' d (torn_content c m)); auto.
     - apply CI_write; auto.
     - apply Hafter.
@@ -209,13 +236,59 @@ Section CLONE.
   Lemma relok_prefix : forall rel x, relok (rel ++ [x]) -> relok rel.
   Proof. intros [|y rel] x H; simpl in *; auto. Qed.
 
+  (* mkdir of something that exists outside the destination changes nothing *)
+  Lemma CI_mkdir_exists : forall g p, CI g -> under dst p = false -> get f0 p <> None ->
+    fst (exec_res g (CMkdir p)) = g.
+  Proof.
+    intros g p [H1 _] Hu Hex. unfold exec_res. cbn [exec]. unfold mkdir. rewrite (H1 p Hu).
+    destruct (get f0 p); [reflexivity|contradiction].
+  Qed.
+
+  Lemma parent_not_under : forall p, under dst p = false -> under dst (parent p) = false.
+  Proof.
+    intros p H. destruct (under dst (parent p)) eqn:E; auto.
+    rewrite (under_trans dst (parent p) p E (under_parent_self p)) in H. discriminate.
+  Qed.
+
+  (* os.makedirs on a path that exists (an ancestor of the destination): no mutation at all *)
+  Lemma safe_makedirs_exist : forall fuel ok p (k : fres unit -> prog A),
+    get f0 p <> None -> under dst p = false -> (forall r, safeK CI (k r)) -> safeK CI (makedirs_p fuel ok p k).
+  Proof.
+    induction fuel as [|fuel IH]; intros ok p k Hex Hu Hk.
+    - simpl. apply safe_do; [reflexivity| |].
+      + intros f Hi. rewrite (CI_mkdir_exists f p Hi Hu Hex). split; auto.
+        destruct (snd (exec_res f (CMkdir p))) as [v|e]; [apply Hk|].
+        destruct ok; [|apply Hk]. apply safe_pure_all; [reflexivity|]. intro r2. destruct (is_dir_r r2); apply Hk.
+      + intro e. destruct ok; [|apply Hk]. apply safe_pure_all; [reflexivity|]. intro r2. destruct (is_dir_r r2); apply Hk.
+    - rewrite makedirs_p_unfold. cbv zeta.
+      assert (Hleaf : safeK CI (Do (CMkdir p) (fun r =>
+                match r with
+                | FOk _ => k (FOk tt)
+                | FErr e => if ok then Do (CStat p) (fun r2 => if is_dir_r r2 then k (FOk tt) else k (FErr e))
+                            else k (FErr e)
+                end))).
+      { apply safe_do; [reflexivity| |].
+        - intros f Hi. rewrite (CI_mkdir_exists f p Hi Hu Hex). split; auto.
+          destruct (snd (exec_res f (CMkdir p))) as [v|e]; [apply Hk|].
+          destruct ok; [|apply Hk]. apply safe_pure_all; [reflexivity|]. intro r2. destruct (is_dir_r r2); apply Hk.
+        - intro e. destruct ok; [|apply Hk]. apply safe_pure_all; [reflexivity|]. intro r2. destruct (is_dir_r r2); apply Hk. }
+      destruct (parent p) as [|a [|b l]] eqn:Ep; auto.
+      apply safe_pure_all; [reflexivity|]. intro rh. destruct (exists_r rh); auto.
+      rewrite <- Ep. apply IH.
+      + rewrite (Hcl p Hex). discriminate.
+      + apply parent_not_under. exact Hu.
+      + intros [u|e]; auto. destruct e; auto.
+  Qed.
+
   Lemma safe_makedirs : forall fuel ok rel (k : fres unit -> prog A),
     relok rel -> (forall r, safeK CI (k r)) -> safeK CI (makedirs_p fuel ok (dst ++ rel) k).
   Proof.
     induction fuel as [|fuel IH]; intros ok rel k Hr Hk.
-    - simpl. apply safe_do; [reflexivity|]. intros f Hi. split; [apply CI_mkdir; auto|].
-      destruct (snd (exec_res f (CMkdir (dst ++ rel)))) as [v|e]; [apply Hk|].
-      destruct ok; [|apply Hk]. apply safe_pure_all; [reflexivity|]. intro r2. destruct (is_dir_r r2); apply Hk.
+    - simpl. apply safe_do; [reflexivity| |].
+      + intros f Hi. split; [apply CI_mkdir; auto|].
+        destruct (snd (exec_res f (CMkdir (dst ++ rel)))) as [v|e]; [apply Hk|].
+        destruct ok; [|apply Hk]. apply safe_pure_all; [reflexivity|]. intro r2. destruct (is_dir_r r2); apply Hk.
+      + intro e. destruct ok; [|apply Hk]. apply safe_pure_all; [reflexivity|]. intro r2. destruct (is_dir_r r2); apply Hk.
     - rewrite makedirs_p_unfold. cbv zeta.
       assert (Hleaf : safeK CI (Do (CMkdir (dst ++ rel)) (fun r =>
                 match r with
@@ -223,16 +296,18 @@ Section CLONE.
                 | FErr e => if ok then Do (CStat (dst ++ rel)) (fun r2 => if is_dir_r r2 then k (FOk tt) else k (FErr e))
                             else k (FErr e)
                 end))).
-      { apply safe_do; [reflexivity|]. intros f Hi. split; [apply CI_mkdir; auto|].
-        destruct (snd (exec_res f (CMkdir (dst ++ rel)))) as [v|e]; [apply Hk|].
-        destruct ok; [|apply Hk]. apply safe_pure_all; [reflexivity|]. intro r2. destruct (is_dir_r r2); apply Hk. }
+      { apply safe_do; [reflexivity| |].
+        - intros f Hi. split; [apply CI_mkdir; auto|].
+          destruct (snd (exec_res f (CMkdir (dst ++ rel)))) as [v|e]; [apply Hk|].
+          destruct ok; [|apply Hk]. apply safe_pure_all; [reflexivity|]. intro r2. destruct (is_dir_r r2); apply Hk.
+        - intro e. destruct ok; [|apply Hk]. apply safe_pure_all; [reflexivity|]. intro r2. destruct (is_dir_r r2); apply Hk. }
       destruct (parent (dst ++ rel)) as [|a [|b l]] eqn:Ep; auto.
-      apply safe_pure; [reflexivity|]. intros f Hi. rewrite exec_res_stat. cbn [snd].
-      destruct (exists_r (FOk (RKind (kind_of (get f (a :: b :: l)))))) eqn:Ex; auto.
-      (* the parent does not exist: it lies below the destination (the workspace itself exists) *)
+      apply safe_pure_all; [reflexivity|]. intro rh. destruct (exists_r rh); auto.
+      (* os.makedirs recurses into the parent: below the destination, or the (existing) workspace *)
       destruct rel as [|x rel'] using rev_ind.
-      + exfalso. rewrite app_nil_r in Ep. unfold dst in Ep. rewrite parent_snoc in Ep. rewrite <- Ep in Ex.
-        destruct Hi as [H1 _]. rewrite (H1 _ dws_not_under_dst), Hdws in Ex. discriminate.
+      + rewrite app_nil_r in Ep. unfold dst in Ep. rewrite parent_snoc in Ep. rewrite <- Ep.
+        apply safe_makedirs_exist; [rewrite Hdws; discriminate|apply dws_not_under_dst|].
+        intros [u|e]; auto. destruct e; auto.
       + rewrite app_assoc, parent_snoc in Ep. rewrite <- Ep.
         apply IH; [eapply relok_prefix; eauto|]. intros [u|e]; auto. destruct e; auto.
   Qed.
@@ -253,7 +328,8 @@ Section CLONE.
       generalize false as errs. induction l as [|n ns IHn]; intro errs.
       + apply safe_pure_all; [reflexivity|]. intros [v1|e1]; [|apply Hk].
         apply safe_pure_all; [reflexivity|]. intros [v2|e2]; apply Hk.
-      + apply safe_pure; [reflexivity|]. intros f Hi. rewrite exec_res_stat. cbn [snd].
+      + apply safe_pure; [reflexivity| |intro e0; cbn [is_dir_r]; rewrite <- !app_assoc; apply safe_copy_file; intros [u1|e1]; apply IHn].
+        intros f Hi. rewrite exec_res_stat. cbn [snd].
         destruct (is_dir_r (FOk (RKind (kind_of (get f ((src ++ rel) ++ [n])))))) eqn:Ed.
         * assert (Hr' : relok (rel ++ [n])).
           { destruct rel as [|y rel']; [|exact Hr]. simpl. intro En. subst n.
@@ -262,100 +338,175 @@ Section CLONE.
           rewrite <- !app_assoc. apply IH; auto. intros [e1|e1]; apply IHn.
         * rewrite <- !app_assoc. apply safe_copy_file. intros [u1|e1]; apply IHn.
   Qed.
+  (* deletions below the destination keep the invariant *)
+  Lemma CI_unlink : forall g p, CI g -> under dst p = true -> CI (fst (exec_res g (CUnlink p))).
+  Proof.
+    intros g p [H1 [H2 H3]] Hu. unfold exec_res. cbn [exec].
+    destruct (unlink g p) as [g'|e] eqn:E; cbn [lift fst]; [|repeat split; auto].
+    assert (Hg : forall q, get g' q = if path_eqb q p then None else get g q) by (intro q; apply (get_unlink _ _ _ q E)).
+    repeat split.
+    - intros q Hq. rewrite Hg. destruct (path_eqb q p) eqn:Eq; [|apply H1; auto].
+      apply path_eqb_eq in Eq. subst q. congruence.
+    - rewrite Hg. destruct (path_eqb dst p); auto.
+    - rewrite Hg. destruct (path_eqb (dst ++ [SPF]) p); auto.
+  Qed.
+
+  Lemma CI_rmdir : forall g p, CI g -> under dst p = true -> CI (fst (exec_res g (CRmdir p))).
+  Proof.
+    intros g p [H1 [H2 H3]] Hu. unfold exec_res. cbn [exec].
+    destruct (rmdir g p) as [g'|e] eqn:E; cbn [lift fst]; [|repeat split; auto].
+    assert (Hg : forall q, get g' q = if path_eqb q p then None else get g q) by (intro q; apply (get_rmdir _ _ _ q E)).
+    repeat split.
+    - intros q Hq. rewrite Hg. destruct (path_eqb q p) eqn:Eq; [|apply H1; auto].
+      apply path_eqb_eq in Eq. subst q. congruence.
+    - rewrite Hg. destruct (path_eqb dst p); auto.
+    - rewrite Hg. destruct (path_eqb (dst ++ [SPF]) p); auto.
+  Qed.
+
+  Lemma safe_rmtree_ign : forall fuel p (k : prog A),
+    under dst p = true -> safeK CI k -> safeK CI (rmtree_ign fuel p k).
+  Proof.
+    induction fuel as [|fuel IH]; intros p k Hu Hk.
+    - cbn [rmtree_ign]. apply safe_pure_all; [reflexivity|]. intro rs. destruct (is_dir_r rs); auto.
+      apply safe_pure_all; [reflexivity|]. intros [v|e]; auto. destruct v; auto.
+      induction l as [|n ns IHn].
+      + apply safe_do; [reflexivity| |auto]. intros f Hi. split; [apply CI_rmdir; auto|auto].
+      + apply safe_pure_all; [reflexivity|]. intro rk. destruct (is_dir_r rk); auto.
+        apply safe_do; [reflexivity| |auto]. intros f Hi.
+        split; [apply CI_unlink; auto; eapply under_trans; [exact Hu|apply under_app]|auto].
+    - cbn [rmtree_ign]. apply safe_pure_all; [reflexivity|]. intro rs. destruct (is_dir_r rs); auto.
+      apply safe_pure_all; [reflexivity|]. intros [v|e]; auto. destruct v; auto.
+      induction l as [|n ns IHn].
+      + apply safe_do; [reflexivity| |auto]. intros f Hi. split; [apply CI_rmdir; auto|auto].
+      + apply safe_pure_all; [reflexivity|]. intro rk. destruct (is_dir_r rk).
+        * apply IH; auto. eapply under_trans; [exact Hu|apply under_app].
+        * apply safe_do; [reflexivity| |auto]. intros f Hi.
+          split; [apply CI_unlink; auto; eapply under_trans; [exact Hu|apply under_app]|auto].
+  Qed.
 End CLONE.
 
-(* ------------------------------------------------------------------ the theorem *)
-Lemma crashed_pure_inv : forall A c (k : fres val -> prog A) f g, pure_call c = true ->
-  crashed (Do c k) f g -> g = f \/ crashed (k (snd (exec_res f c))) f g.
-Proof.
-  intros A c k f g Hp H. apply crashed_do_inv in H; [|apply pure_not_write; auto].
-  rewrite (pure_fst f c Hp) in H. exact H.
-Qed.
+(* ------------------------------------------------------------------ the theorems *)
+Section CLONE_THM.
+  Variable frepr : fl -> str.
+  Variable wss : list path.
+  Variable f0 : fs.
+  Variables ws dws : path.
+  Variable i : str.
+  Hypothesis HW : WInv frepr wss f0.
+  Hypothesis Hws : In ws wss.
+  Hypothesis Hdwsin : In dws wss.
+  Hypothesis Hi : In i (job_dirs f0 ws).
+  Let o := KClone ws i dws.
+  Let src := ws ++ [i].
+  Let dst := dws ++ [i].
 
-Lemma clone_exists_states : forall A f0 (src dws : path) (i : str) (k : fres bool -> prog A) g,
-  get f0 (dws ++ [i]) <> None -> get f0 dws = Some Dir ->
-  (forall r, crashed (k r) f0 g -> g = f0) ->
-  crashed (copytree_p 6 src (dws ++ [i]) k) f0 g -> g = f0.
-Proof.
-  intros A f0 src dws i k g Hex Hdws Hk H. cbn [copytree_p] in H.
-  apply crashed_pure_inv in H; [|reflexivity]. destruct H as [->|H]; auto.
-  destruct (snd (exec_res f0 (CListdir src))) as [v|e]; [|apply (Hk _ H)].
-  destruct v; try apply (Hk _ H).
-  assert (Hleaf : forall kont : fres val -> prog A,
-            crashed (Do (CMkdir (dws ++ [i])) kont) f0 g ->
-            (forall e, crashed (kont (FErr e)) f0 g -> g = f0) -> g = f0).
-  { intros kont Hc Hkk. apply crashed_do_inv in Hc; [|reflexivity]. destruct Hc as [->|Hc]; auto.
-    assert (E : exec_res f0 (CMkdir (dws ++ [i])) = (f0, FErr EEXIST)).
-    { unfold exec_res. cbn [exec]. unfold mkdir. destruct (get f0 (dws ++ [i])); [reflexivity|contradiction]. }
-    rewrite E in Hc. cbn [fst snd] in Hc. apply (Hkk _ Hc). }
-  rewrite makedirs_p_unfold in H. cbv zeta in H. rewrite parent_snoc in H.
-  destruct dws as [|a [|b l0]].
-  - apply (Hleaf _ H). intros e Hc. cbn beta iota in Hc. apply (Hk _ Hc).
-  - apply (Hleaf _ H). intros e Hc. cbn beta iota in Hc. apply (Hk _ Hc).
-  - apply crashed_pure_inv in H; [|reflexivity]. destruct H as [->|H]; auto.
-    rewrite exec_res_stat, Hdws in H. cbn [snd kind_of exists_r] in H.
-    apply (Hleaf _ H). intros e Hc. cbn beta iota in Hc. apply (Hk _ Hc).
-Qed.
+  Lemma cl_facts : get f0 dws = Some Dir /\ length ws = length dws /\
+    (forall p, get f0 p <> None -> get f0 (parent p) = Some Dir) /\
+    exists c0 v0, get f0 (src ++ [SPF]) = Some (File c0) /\ c_json c0 = Some v0 /\ calc_id frepr v0 = i /\
+                  is_jnull v0 = false /\ sp_value f0 ws i = Some v0.
+  Proof.
+    destruct (winv_job frepr wss f0 ws i HW Hws Hi) as [Hsd [c0 [v0 [G [J E]]]]].
+    pose proof (winv_job_nn frepr wss f0 ws i HW Hws Hi c0 v0 G J) as Hnn.
+    pose proof HW as [Hnd [Hnil [Hcl [Hlen Hv]]]].
+    split; [apply (Hv dws Hdwsin)|]. split; [apply Hlen; auto|]. split; [exact Hcl|].
+    exists c0, v0. repeat split; auto. rewrite sp_value_dir. fold src. rewrite G. exact J.
+  Qed.
 
-Theorem crash_safe_clone_thm : forall frepr wss f0 ws dws i atomic g,
-  WInv frepr wss f0 -> In ws wss -> In dws wss -> ws <> dws -> In i (job_dirs f0 ws) ->
-  crash_states (op_prog frepr atomic (KClone ws i dws)) f0 g ->
-  CInv frepr (KClone ws i dws) wss f0 g.
-Proof.
-  intros frepr wss f0 ws dws i atomic g HW Hws Hdwsin Hdiff Hi H.
-  destruct (winv_job frepr wss f0 ws i HW Hws Hi) as [Hsd [c0 [v0 [G [J E]]]]].
-  pose proof HW as [Hnd [Hnil [Hcl [Hlen Hv]]]].
-  assert (Hdws : get f0 dws = Some Dir) by (apply (Hv dws Hdwsin)).
-  assert (Hspv : sp_value f0 ws i = Some v0) by (rewrite sp_value_dir, G; exact J).
-  set (o := KClone ws i dws). set (src := ws ++ [i]) in *. set (dst := dws ++ [i]).
-  assert (Hdd : dst_dir frepr o f0 = dst) by (unfold dst_dir, o; rewrite Hspv, E; reflexivity).
-  assert (Haff : affected frepr o f0 = if exists_ f0 dst then [] else [dst]).
-  { unfold affected. fold o. rewrite Hdd. reflexivity. }
-  assert (Hhist : history frepr o f0 = [v0]) by (unfold history, o; rewrite Hspv; reflexivity).
-  (* the program after the state point has been read *)
-  unfold op_prog, o, job_clone, with_sp, sp_load in H.
-  replace (ws ++ [i; SPF]) with (src ++ [SPF]) in H by (unfold src; rewrite <- app_assoc; reflexivity).
-  apply crashed_pure_inv in H; [|reflexivity].
-  assert (Hpre : CInv frepr o wss f0 f0).
-  { apply cinv_intro; auto.
-    - rewrite Haff. intros x Hx. destruct (exists_ f0 dst); [contradiction|]. destruct Hx as [<-|[]]. exists dws, i. auto.
-    - right. intros r c Hp Hg. cbn [o src_dir] in Hg. cbn. rewrite (holds_file_get _ _ _ _ Hg). reflexivity.
-    - rewrite Haff. intros x Hx. destruct (exists_ f0 dst) eqn:Ex; [contradiction|]. destruct Hx as [<-|[]].
-      left. unfold exists_ in Ex. destruct (get f0 dst); [discriminate|reflexivity].
-    - rewrite Haff. intros w j Hw Hin Hval. destruct (exists_ f0 dst) eqn:Ex; [contradiction|]. destruct Hin as [Ed|[]].
-      rewrite validates_dir, <- Ed in Hval. unfold exists_ in Ex.
-      destruct (get f0 dst) eqn:Gd; [discriminate|]. rewrite (closed_absent f0 dst Hcl Gd [SPF]) in Hval. discriminate. }
-  destruct H as [->|H]; [exact Hpre|].
-  assert (E0 : exec_res f0 (CRead (src ++ [SPF])) = (f0, FOk (RData c0))) by (unfold exec_res; cbn [exec]; rewrite G; reflexivity).
-  rewrite E0 in H. cbn [snd] in H. rewrite J, E, str_eqb_refl in H. fold src dst in H.
-  destruct (get f0 dst) as [nd|] eqn:Gd.
-  - (* the destination exists: DestinationExistsError, nothing happens *)
-    assert (Hg : g = f0).
-    { eapply (clone_exists_states _ f0 src dws i); [fold dst; congruence|exact Hdws| |exact H].
-      intros r Hc. destruct r as [[|]|e]; cbn in Hc;
-        try (apply crashed_ret_inv in Hc; exact Hc); try (apply crashed_raise_inv in Hc; exact Hc).
-      destruct e; cbn in Hc; apply crashed_raise_inv in Hc; exact Hc. }
-    subst g. exact Hpre.
-  - (* fresh destination *)
-    assert (Hci0 : CI f0 dws i c0 f0).
-    { unfold CI. fold src dst. repeat split; auto. left. apply (closed_absent f0 dst Hcl Gd [SPF]). }
-    assert (Hsafe : CI f0 dws i c0 g).
-    { rewrite <- (app_nil_r src), <- (app_nil_r dst) in H.
-      eapply (@safe_copytree f0 ws dws i c0 (Hlen ws dws Hws Hdwsin) Hdiff Hdws G unit 6 []);
-        [exact I| |exact Hci0|exact H].
-      intros [[|]|e0]; [apply safe_raise|apply safe_ret|destruct e0; apply safe_raise]. }
-    destruct Hsafe as [H1 [H2 H3]]. fold src dst in H1, H2, H3.
-    assert (Hex : exists_ f0 dst = false) by (unfold exists_; rewrite Gd; reflexivity).
+  Lemma cl_dst_dir : dst_dir frepr o f0 = dst.
+  Proof.
+    destruct cl_facts as [_ [_ [_ [c0 [v0 [_ [_ [E [_ Hs]]]]]]]]]. unfold dst_dir, o. rewrite Hs, E. reflexivity.
+  Qed.
+
+  Lemma cl_aff : affected frepr o f0 = if exists_ f0 dst then [] else [dst].
+  Proof. unfold affected. fold o. rewrite cl_dst_dir. reflexivity. Qed.
+
+  Lemma cl_hist : exists v0, history frepr o f0 = [v0] /\ sp_value f0 ws i = Some v0.
+  Proof.
+    destruct cl_facts as [_ [_ [_ [c0 [v0 [_ [_ [_ [_ Hs]]]]]]]]]. exists v0. unfold history, o. rewrite Hs. auto.
+  Qed.
+
+  Lemma cinv_clone_pre : CInv frepr o wss f0 f0.
+  Proof.
+    destruct cl_facts as [Hdws [Hlen [Hcl _]]].
     apply cinv_intro; auto.
-    + rewrite Haff, Hex. intros x [<-|[]]. exists dws, i. auto.
-    + rewrite Haff, Hex. intros p Hp. apply under_any_false_cons in Hp. destruct Hp as [Hp _]. apply H1. exact Hp.
-    + right. intros r c Hp Hg. cbn [o src_dir] in Hg. fold src in Hg. cbn.
-      fold src. rewrite (holds_file_get g src r c); [reflexivity|].
-      rewrite H1; [exact Hg|]. apply (src_not_under_dst ws dws i (Hlen ws dws Hws Hdwsin) Hdiff).
-    + rewrite Haff, Hex. intros x [<-|[]]. exact H2.
-    + rewrite Haff, Hex. intros w j Hw [Ed|[]] Hval. rewrite Hhist.
-      rewrite validates_dir, <- Ed in Hval. rewrite sp_value_dir, <- Ed.
-      destruct H3 as [Hn|[c [Hc Hj]]]; [rewrite Hn in Hval; discriminate|].
-      rewrite Hc in *. destruct Hj as [Hj|Hj]; [rewrite Hj in Hval; discriminate|]. subst c.
-      exists v0. split; auto. simpl. rewrite json_same_refl. reflexivity.
-Qed.
+    - rewrite cl_aff. intros x Hx. destruct (exists_ f0 dst); [contradiction|]. destruct Hx as [<-|[]]. exists dws, i. auto.
+    - right. intros r c Hp Hg. cbn [o src_dir] in Hg. cbn. rewrite (holds_file_get _ _ _ _ Hg). reflexivity.
+    - rewrite cl_aff. intros x Hx. destruct (exists_ f0 dst) eqn:Ex; [contradiction|]. destruct Hx as [<-|[]].
+      left. unfold exists_ in Ex. destruct (get f0 dst); [discriminate|reflexivity].
+    - rewrite cl_aff. intros w j Hw Hin Hval. destruct (exists_ f0 dst) eqn:Ex; [contradiction|]. destruct Hin as [Ed|[]].
+      rewrite validates_dir, <- Ed in Hval. unfold exists_ in Ex.
+      destruct (get f0 dst) eqn:Gd; [discriminate|]. rewrite (closed_absent f0 dst Hcl Gd [SPF]) in Hval. discriminate.
+  Qed.
+
+  Section FRESH.
+    Hypothesis Hdiff : ws <> dws.
+    Hypothesis Hfresh : get f0 dst = None.
+    Variable c0 : content.
+    Variable v0 : json.
+    Hypothesis G : get f0 (src ++ [SPF]) = Some (File c0).
+    Hypothesis J : c_json c0 = Some v0.
+    Hypothesis E : calc_id frepr v0 = i.
+    Hypothesis Hnn : is_jnull v0 = false.
+
+    Lemma ci_start : CI f0 dws i c0 f0.
+    Proof.
+      destruct cl_facts as [_ [_ [Hcl _]]]. unfold CI. fold dst. repeat split; auto.
+      left. apply (closed_absent f0 dst Hcl Hfresh [SPF]).
+    Qed.
+
+    Lemma clone_safe : forall atomic, safeK (CI f0 dws i c0) (op_prog frepr atomic o).
+    Proof.
+      intro atomic. destruct cl_facts as [Hdws [Hlen [Hcl _]]].
+      unfold op_prog, o, job_clone, with_sp, sp_load.
+      replace (ws ++ [i; SPF]) with (src ++ [SPF]) by (unfold src; rewrite <- app_assoc; reflexivity).
+      assert (HK : forall r : fres bool, safeK (CI f0 dws i c0)
+                (match r with
+                 | FOk false => ret_res (inl tt)
+                 | FOk true => rmtree_ign 6 dst (ret_res (inr (POs EIO)))
+                 | FErr EEXIST => ret_res (inr (PExn EDestinationExists))
+                 | FErr ENOENT => ret_res (inr (PExn EValueError))
+                 | FErr e => rmtree_ign 6 dst (ret_res (inr (POs e)))
+                 end)).
+      { intros [[|]|e].
+        - apply (safe_rmtree_ign f0 dws i c0); [apply under_refl|apply safe_raise].
+        - apply safe_ret.
+        - destruct e; try apply safe_raise; (apply (safe_rmtree_ign f0 dws i c0); [apply under_refl|apply safe_raise]). }
+      apply safe_pure; [reflexivity| |].
+      - intros f Hf. assert (Gf : get f (src ++ [SPF]) = Some (File c0)).
+        { destruct Hf as [H1 _]. rewrite (H1 _ (src_not_under_dst ws dws i Hlen Hdiff [SPF])). exact G. }
+        unfold exec_res. cbn [exec]. rewrite Gf. cbn [snd]. rewrite J, Hnn, E, str_eqb_refl.
+        fold src dst. rewrite <- (app_nil_r src), <- (app_nil_r dst).
+        apply (safe_copytree f0 ws dws i c0 Hlen Hdiff Hdws G Hcl); [exact I|]. exact HK.
+      - intro e. destruct e; apply safe_raise.
+    Qed.
+
+    Lemma cinv_of_CI : forall g, CI f0 dws i c0 g -> CInv frepr o wss f0 g.
+    Proof.
+      intros g [H1 [H2 H3]]. fold dst in H1, H2, H3. destruct cl_facts as [Hdws [Hlen [Hcl _]]].
+      assert (Hex : exists_ f0 dst = false) by (unfold exists_; rewrite Hfresh; reflexivity).
+      apply cinv_intro; auto.
+      - rewrite cl_aff, Hex. intros x [<-|[]]. exists dws, i. auto.
+      - rewrite cl_aff, Hex. intros p Hp. apply under_any_false_cons in Hp. destruct Hp as [Hp _]. apply H1. exact Hp.
+      - right. intros r c Hp Hg. cbn [o src_dir] in Hg. fold src in Hg. cbn. fold src.
+        rewrite (holds_file_get g src r c); [reflexivity|].
+        rewrite H1; [exact Hg|]. apply (src_not_under_dst ws dws i Hlen Hdiff).
+      - rewrite cl_aff, Hex. intros x [<-|[]]. exact H2.
+      - rewrite cl_aff, Hex. intros w j Hw [Ed|[]] Hval. destruct cl_hist as [v1 [Hh Hv1]]. rewrite Hh.
+        rewrite validates_dir, <- Ed in Hval. rewrite sp_value_dir, <- Ed.
+        destruct H3 as [Hn|[c [Hc Hj]]]; [rewrite Hn in Hval; discriminate|].
+        rewrite Hc in *. destruct Hj as [Hj|Hj]; [rewrite Hj in Hval; discriminate|]. subst c.
+        rewrite sp_value_dir in Hv1. fold src in Hv1. rewrite G, J in Hv1. injection Hv1 as <-.
+        exists v0. split; auto. simpl. rewrite json_same_refl. reflexivity.
+    Qed.
+  End FRESH.
+
+  (* fresh destination: every crash state AND every outcome under every fault plan satisfies CInv *)
+  Theorem clone_fresh_all : forall atomic g, ws <> dws -> get f0 dst = None ->
+    gcrashed (op_prog frepr atomic o) f0 g -> CInv frepr o wss f0 g.
+  Proof.
+    intros atomic g Hdiff Hfresh Hg.
+    destruct cl_facts as [_ [_ [_ [c0 [v0 [G [J [E [Hnn _]]]]]]]]].
+    apply (cinv_of_CI Hdiff Hfresh c0 v0 G J).
+    apply (clone_safe Hdiff Hfresh c0 v0 G J E Hnn atomic f0 g); [apply ci_start; auto|exact Hg].
+  Qed.
+End CLONE_THM.
